@@ -33,6 +33,10 @@ def solve_formula(formula, iface):
     try:
         if iface == 'def':
             sol = rs['lp'].def_sol(formula, display=False)
+        elif iface == 'grb':
+            # NonConvex=1 + time limit: a non-convex model (possible only after a faulty dualisation) is refused at once
+            # instead of being handed to Gurobi's spatial branch and bound
+            sol = rs[iface].solve(formula, display=False, params={'TimeLimit': 5, 'NonConvex': 1})
         else:
             sol = rs[iface].solve(formula, display=False)
     except Exception as ex:  # noqa
@@ -103,8 +107,11 @@ def snapshot(formula):
     return snap
 
 
-def snap_diff(a, b):
-    """First differing field of two snapshots ('' if numerically identical; -0.0 == 0.0, inf == inf)."""
+def snap_diff(a, b, rtol=0.0):
+    """First differing field of two snapshots ('' if numerically identical; -0.0 == 0.0, inf == inf).
+
+    rtol > 0 (used only for float32 user data, whose arithmetic rsome may legitimately carry out in single
+    precision) accepts entries with |x - y| <= rtol * (1 + |y|)."""
     if a['shape'] != b['shape']:
         return 'shape %s vs %s' % (a['shape'], b['shape'])
     for f in ('linear', 'const', 'sense', 'ub', 'lb', 'obj'):
@@ -116,7 +123,11 @@ def snap_diff(a, b):
         if x.shape != y.shape:
             return '%s shape %s vs %s' % (f, x.shape, y.shape)
         if not np.array_equal(x, y):
-            idx = np.argwhere(~((x == y) | (np.isnan(x) & np.isnan(y))))
+            same = (x == y) | (np.isnan(x) & np.isnan(y))
+            if rtol:
+                with np.errstate(invalid='ignore'):
+                    same = same | (np.abs(x - y) <= rtol * (1 + np.abs(y)))
+            idx = np.argwhere(~same)
             if len(idx) == 0:
                 continue
             i = tuple(int(j) for j in idx[0])
